@@ -19,6 +19,9 @@ SciPy sparse arrays (``"csr"``: ``csr_array``, ``"csc"``: ``csc_array``, ``"coo"
 zeros are not stored: a block that vanishes at the current point is then an empty sparse array
 (``nnz == 0``), a block that does not is a sparse array with stored entries.  ``"mixed"`` alternates the
 storage block by block (dense, csr, csc, coo in the order the blocks are filled).
+
+``optional`` lists the inputs that the input grammar does not require (they all have a default value): an
+optional input is an input all the same, the discipline reads it whenever it is given.
 """
 
 from __future__ import annotations
@@ -56,6 +59,7 @@ class QDisc(Discipline):
         declare_linear: Sequence[str] = (),
         defaults: Mapping[str, Sequence[float]] | None = None,
         jac_storage: str = "dense",
+        optional: Sequence[str] = (),
     ) -> None:
         """
         Args:
@@ -66,6 +70,8 @@ class QDisc(Discipline):
             defaults: The default values of the inputs (zero when missing).
             jac_storage: The storage of the Jacobian blocks
                 (``"dense"``, ``"csr"``, ``"csc"``, ``"coo"`` or ``"mixed"``).
+            optional: The names of the inputs that are optional in the input grammar
+                (not required: the default value is used when the input is not given).
         """  # noqa: D205 D212 D415
         super().__init__(name=name)
         self.jac_storage = jac_storage
@@ -78,6 +84,9 @@ class QDisc(Discipline):
         self.io.input_grammar.defaults.update({
             k: array([float(v) for v in defaults.get(k, [0.0] * n)]) for k, n in in_sizes.items()
         })
+        for k in optional:
+            # an optional input: in the grammar, with a default value, not in the required names
+            self.io.input_grammar.required_names.remove(k)
         self.outs = {}
         for o, spec in outs.items():
             const = array([float(c) for c in spec["const"]])
